@@ -52,7 +52,7 @@ pub mod executor {
 }
 
 pub mod timer {
-    pub use real_safina::timer::{DeadlineError, DeadlineExceededError};
+    pub use real_safina::timer::{DeadlineError, DeadlineExceededError, TimerThreadNotStarted};
     use std::future::Future;
     use std::pin::Pin;
     use std::task::{Context, Poll};
@@ -62,11 +62,21 @@ pub mod timer {
         deadline_ns: u64,
         key: Option<(u64, u64)>,
     }
+    impl SleepFuture {
+        /// As in safina: completes after `deadline`. The real-clock deadline is converted to
+        /// a span of VIRTUAL time from now (the simulated timer thread always runs).
+        #[must_use]
+        pub fn new(deadline: std::time::Instant) -> Self {
+            let d = u64::try_from(deadline.saturating_duration_since(std::time::Instant::now()).as_nanos()).unwrap_or(u64::MAX);
+            sim_core::with(|w| w.count("timer.sleep_for"));
+            SleepFuture { deadline_ns: sim_core::now_ns().saturating_add(d), key: None }
+        }
+    }
     impl Future for SleepFuture {
-        type Output = ();
-        fn poll(mut self: Pin<&mut Self>, cx: &mut Context<'_>) -> Poll<()> {
+        type Output = Result<(), TimerThreadNotStarted>;
+        fn poll(mut self: Pin<&mut Self>, cx: &mut Context<'_>) -> Poll<Self::Output> {
             if sim_core::now_ns() >= self.deadline_ns {
-                return Poll::Ready(());
+                return Poll::Ready(Ok(()));
             }
             // (Re-)register with the current waker.
             if let Some(k) = self.key.take() {
@@ -118,7 +128,7 @@ pub mod timer {
         let now = sim_core::now_ns();
         let d = u64::try_from(duration.as_nanos()).unwrap_or(u64::MAX);
         sim_core::with(|w| w.count("timer.sleep_for"));
-        SleepFuture {
+        let _ = SleepFuture {
             deadline_ns: now.saturating_add(d),
             key: None,
         }
